@@ -1351,3 +1351,132 @@ Example unsuspend_within_entitlement_nonvacuous :
   /\ cl_unsuspend dc 0x70007 [7] 0 5
      = Some (mkDC 1 0 (KActive (mkCK 1 (mkCert 1 0xF000F 0) false)) [] [(7, mkIC 0x30003 no_limit 5)] [] [], []).
 Proof. vm_compute. split; reflexivity. Qed.
+
+(** * Revocation: what the parent holds after a child gave up a class *)
+
+Definition remove_key (dc : dclass) (k : N) : dclass := dc_with_certs dc (aremove k (d_issued dc)) (aremove k (d_susp dc)).
+
+Lemma holds_key_removed dc k : holds_key (remove_key dc k) k = false.
+Proof. unfold holds_key, remove_key. cbn [d_issued d_susp dc_with_certs dc_with]. rewrite !amem_aremove, N.eqb_refl. reflexivity. Qed.
+
+Lemma holds_key_remove_other dc k k' : holds_key dc k = false -> holds_key (remove_key dc k') k = false.
+Proof.
+  unfold holds_key, remove_key. cbn [d_issued d_susp dc_with_certs dc_with]. rewrite !amem_aremove.
+  intro H. apply orb_false_iff in H. destruct H as [-> ->]. rewrite !andb_false_r. reflexivity.
+Qed.
+
+Lemma aget_revoke_keys rm h chs :
+  aget h (revoke_keys rm chs)
+  = option_map (fun dch => ch_with dch (fold_left (fun ch ki => if ch_is_issued ch ki then ch_set_used ch ki Revoked else ch) rm (dc_ch dch))) (aget h chs).
+Proof. unfold revoke_keys. apply aget_map_snd. Qed.
+
+(** One revocation request that names a class the parent has (after translation by the child's class-name
+    mapping): it is refused unless the key is in use; otherwise exactly that class loses the certificate(s) of the
+    key, and the child's key is marked revoked; the class-name mapping is untouched. *)
+Lemma revoke_step s h crcn ki s' dch c dc :
+  aget h (da_children s) = Some dch -> name_in_parent (dc_ch dch) crcn = c -> aget c (da_classes s) = Some dc ->
+  dprocess s (XRevoke h crcn ki) = Done s' ->
+  ch_is_issued (dc_ch dch) ki = true
+  /\ aget c (da_classes s') = Some (remove_key dc ki)
+  /\ exists dch', aget h (da_children s') = Some dch' /\ ch_map (dc_ch dch') = ch_map (dc_ch dch)
+                  /\ ch_is_issued (dc_ch dch') ki = false.
+Proof.
+  intros Hh Hn Hc H. cbn [dprocess] in H. rewrite Hh in H. cbv zeta in H. rewrite Hn, Hc in H.
+  destruct (ch_is_issued (dc_ch dch) ki) eqn:Ei; [|discriminate]. cbn [negb] in H. inv H.
+  split; [reflexivity|]. split.
+  - cbn [da_classes da_with]. apply aget_ainsert_eq.
+  - cbn [da_children da_with].
+    assert (Hr : ch_is_issued (ch_set_used (dc_ch dch) ki Revoked) ki = false).
+    { unfold ch_is_issued, ch_set_used. cbn [ch_used]. rewrite aget_ainsert_eq. reflexivity. }
+    rewrite Hr. cbn [aget]. rewrite N.eqb_refl. eexists. split; [reflexivity|]. cbn [dc_ch ch_with]. split; [reflexivity|exact Hr].
+Qed.
+
+(** revoke_clears: after a revocation request for (class as the parent names it for this child, key) has been
+    performed, the parent holds no certificate for that key in that class - neither published nor suspended -
+    and no longer counts the key as in use. *)
+Theorem revoke_clears s h crcn ki s' dch :
+  aget h (da_children s) = Some dch ->
+  amem (name_in_parent (dc_ch dch) crcn) (da_classes s) = true ->
+  dprocess s (XRevoke h crcn ki) = Done s' ->
+  (exists dc', aget (name_in_parent (dc_ch dch) crcn) (da_classes s') = Some dc' /\ holds_key dc' ki = false)
+  /\ (exists dch', aget h (da_children s') = Some dch' /\ ch_is_issued (dc_ch dch') ki = false).
+Proof.
+  intros Hh Hm H. unfold amem in Hm. destruct (aget _ (da_classes s)) as [dc|] eqn:Hc; [|discriminate].
+  destruct (revoke_step _ _ _ _ _ _ _ _ Hh eq_refl Hc H) as [_ [Hc' [dch' [Hh' [_ Hi']]]]]. split.
+  - eexists. split; [exact Hc'|apply holds_key_removed].
+  - eexists. split; [exact Hh'|exact Hi'].
+Qed.
+
+(** ... whereas a request that names a class the parent does not have (certauth.rs:1439-1446) is confirmed
+    without anything being done: the name in the request is all that ties it to the certificate. *)
+Theorem revoke_unknown_class_noop s h crcn ki dch :
+  aget h (da_children s) = Some dch ->
+  aget (name_in_parent (dc_ch dch) crcn) (da_classes s) = None ->
+  dprocess s (XRevoke h crcn ki) = Done s.
+Proof. intros Hh Hc. cbn [dprocess]. rewrite Hh. cbv zeta. rewrite Hc. reflexivity. Qed.
+
+(** All requests for one class name, one after the other *)
+Lemma revoke_all_clears h crcn c : forall keys s s' dch dc,
+  aget h (da_children s) = Some dch -> name_in_parent (dc_ch dch) crcn = c -> aget c (da_classes s) = Some dc ->
+  revoke_all s h (map (fun k => (crcn, k)) keys) = Done s' ->
+  exists dc', aget c (da_classes s') = Some dc'
+              /\ (forall k, In k keys -> holds_key dc' k = false)
+              /\ (forall k, holds_key dc k = false -> holds_key dc' k = false).
+Proof.
+  induction keys as [|k0 keys IH]; intros s s' dch dc Hh Hn Hc H.
+  - inv H. exists dc. repeat split; auto. intros k [].
+  - cbn [map revoke_all] in H. destruct (dprocess s (XRevoke h crcn k0)) as [s1| |] eqn:E1; try discriminate.
+    destruct (revoke_step _ _ _ _ _ _ _ _ Hh Hn Hc E1) as [_ [Hc1 [dch1 [Hh1 [Hm1 _]]]]].
+    assert (Hn1 : name_in_parent (dc_ch dch1) crcn = c) by (unfold name_in_parent in *; rewrite Hm1; exact Hn).
+    destruct (IH _ _ _ _ Hh1 Hn1 Hc1 H) as [dc' [Hc' [Hk Hp]]].
+    exists dc'. split; [exact Hc'|]. split.
+    + intros k [<-|Hin]; [apply Hp, holds_key_removed|apply Hk, Hin].
+    + intros k Hf. apply Hp, holds_key_remove_other, Hf.
+Qed.
+
+(** dropped_class_revoked: a child gives up a class [x] and its revocation requests ([class_revocations]: one per
+    certified key, naming the class as the parent names it) are all performed by the parent. Then the parent
+    class behind that name holds no certificate - published or suspended - for any certified key of the dropped
+    class: nothing is left for a key the child has discarded. *)
+Theorem dropped_class_revoked s h dch x c s' :
+  aget h (da_children s) = Some dch ->
+  name_in_parent (dc_ch dch) (d_prcn x) = c ->
+  amem c (da_classes s) = true ->
+  revoke_all s h (class_revocations x) = Done s' ->
+  exists dc', aget c (da_classes s') = Some dc' /\ forall k, In k (ks_certified (d_keys x)) -> holds_key dc' k = false.
+Proof.
+  intros Hh Hn Hm H. unfold amem in Hm. destruct (aget c (da_classes s)) as [dc|] eqn:Hc; [|discriminate].
+  destruct (revoke_all_clears h (d_prcn x) c _ _ _ _ _ Hh Hn Hc H) as [dc' [Hc' [Hk _]]].
+  exists dc'. split; assumption.
+Qed.
+
+(** The hypothesis on the name is what matters: requests under any name the parent does not know are all confirmed
+    and leave the parent as it was (the defect this theorem guards against: the child's own name of the class). *)
+Theorem revocations_under_unknown_name_keep s h dch wrong : forall keys,
+  aget h (da_children s) = Some dch ->
+  aget (name_in_parent (dc_ch dch) wrong) (da_classes s) = None ->
+  revoke_all s h (map (fun k => (wrong, k)) keys) = Done s.
+Proof.
+  induction keys as [|k keys IH]; intros Hh Hc; [reflexivity|].
+  cbn [map revoke_all]. rewrite (revoke_unknown_class_noop _ _ _ _ _ Hh Hc). apply IH; assumption.
+Qed.
+
+(** non-vacuity: parent with the classes 0 and 1; the child (handle 4) holds key 7 in class 1 and calls that class
+    2 after having lost and regained it; it drops the class. Requests naming 1 clear the certificate, requests
+    naming 2 (the child's own name) are confirmed and the certificate stays. *)
+Definition rv_parent : dca :=
+  mkDCA [(0, mkDC 1 0 (KActive (mkCK 1 (mkCert 1 0xC000C0 0) false)) [] [(6, mkIC 0xC000C0 no_limit 9)] [] []);
+         (1, mkDC 2 0 (KActive (mkCK 2 (mkCert 2 0x300030 0) false)) [] [(7, mkIC 0x300030 no_limit 9)] [] [])]
+        [(4, mkDCh 0xF000F0 (mkChild false [(6, InUse 0); (7, InUse 1)] []))] [] 2.
+Definition rv_dropped (prcn : N) : dclass := mkDC 9 prcn (KActive (mkCK 7 (mkCert 7 0x300030 0) false)) [] [] [] [].
+
+Example dropped_class_revoked_nonvacuous :
+  class_revocations (rv_dropped 1) = [(1, 7)]
+  /\ (exists s', revoke_all rv_parent 4 (class_revocations (rv_dropped 1)) = Done s'
+                 /\ (exists dc', aget 1 (da_classes s') = Some dc' /\ holds_key dc' 7 = false))
+  /\ revoke_all rv_parent 4 (class_revocations (rv_dropped 2)) = Done rv_parent
+  /\ (exists dc, aget 1 (da_classes rv_parent) = Some dc /\ holds_key dc 7 = true).
+Proof.
+  split; [reflexivity|]. split; [eexists; split; [vm_compute; reflexivity|eexists; split; vm_compute; reflexivity]|].
+  split; [vm_compute; reflexivity|eexists; split; vm_compute; reflexivity].
+Qed.
